@@ -114,6 +114,7 @@ func main() {
 	seed := flag.Uint64("seed", 1, "seed")
 	iters := flag.Int("iters", 4, "iterations per goroutine")
 	k := flag.Int("k", 2, "number of goroutines")
+	ref := flag.String("ref", "twice", "sequential reference: twice (first iteration run twice, to see that it is a function of the seed) | once")
 	dump := flag.Bool("dump", false, "print the result lines of goroutine 0's first iteration and exit (for reading a replay)")
 	flag.Parse()
 
@@ -185,8 +186,10 @@ func main() {
 			want := safely(pick(g), privSeed(g, i))
 			if i == 0 {
 				fmt.Printf("seq %d %s\n", g, want)
-				if again := safely(pick(g), privSeed(g, i)); again != want {
-					fmt.Printf("nondeterministic %d %s %s\n", g, want, again)
+				if *ref != "once" {
+					if again := safely(pick(g), privSeed(g, i)); again != want {
+						fmt.Printf("nondeterministic %d %s %s\n", g, want, again)
+					}
 				}
 			}
 			if verdict[g] == "same" && got[g][i] != want {
